@@ -148,6 +148,14 @@ CtxLeanAlphabet(t) ==
 CtxLeanResizes(t) == {<<c, r>> \in {<<2, 2>>, <<4, 5>>} : <<c, r>> # <<t.cols, t.rows>>}
 CtxResizes(t) == {<<c, r>> \in {<<1, 1>>, <<2, 2>>, <<3, 3>>, <<4, 5>>} : <<c, r>> # <<t.cols, t.rows>>}
 
+(* saved contexts x auto-wrap x pending wrap: on a 1- or 2-column screen every print reaches the wrap-pending    *)
+(* position, so save / mode change / print / restore chains of length 5 cover "restore while a wrap is pending". *)
+CtxWrapAlphabet(t) ==
+  {FS("Decrst", <<7>>), FS("Decset", <<7>>), F0("Decsc"), F0("Decrc"), F0("Scorc"), F1("Print", 97), F1("Cub", 1), F0("Cr"),
+   FS("Decset", <<1049>>), FS("Decrst", <<1049>>), FS("Decset", <<1048>>), FS("Decrst", <<1048>>), F0("Decstr")}
+CtxWrapSizes == {<<1, 2>>, <<2, 2>>}
+CtxWrapResizes(t) == {}
+
 \* ------------------------------------------------------------- C11: dump / restore
 DumpAlphabet(t) ==
      {F1("Print", 97), F0("Cr"), F0("Lf"), F0("So"), F1("Gzd4", 1), F1("G1d4", 1), F0("Hts"), F1("Tbc", 3), F0("Decsc")}
@@ -171,12 +179,12 @@ RisAlphabet(t) ==
    F0("So"), F1("Gzd4", 1), F1("G1d4", 1), F0("Hts"), F1("Tbc", 3), F2("Decstbm", 2, t.rows), FS("Sgr", <<<<1, 0>>, <<48, 5>>>>),
    F0("Decsc"), FS("Decset", <<1047>>), FS("Decset", <<1049>>), F1("Print", 97), F0("Lf"), F2("Cup", t.rows, t.cols),
    Raw(<<27, 93, 97>>), Raw(<<27, 91, 49, 59>>), Raw(<<27, 80>>), Raw(<<27, 40>>), F0("Ris")}
-RisSizes == {<<3, 2>>, <<9, 1>>}
-RisResizes(t) == {<<c, r>> \in {<<2, 3>>} : <<c, r>> # <<t.cols, t.rows>>}
+RisSizes == {<<3, 2>>, <<9, 1>>, <<2, 3>>}
+RisResizes(t) == {<<c, r>> \in {<<2, 4>>} : <<c, r>> # <<t.cols, t.rows>>}
 
 \* ------------------------------------------------------------- C18: tab stops x widths
 TabsAlphabet(t) ==
-     {FS("Decset", <<1047>>), FS("Decrst", <<1047>>), F0("Hts"), F0("Ht"), F1("Cbt", 1), F1("Cht", 2), F1("Tbc", 0), F1("Tbc", 3), F1("Ctc", 0), F1("Ctc", 2), F0("Cr")}
+     {FS("Decset", <<1047>>), FS("Decrst", <<1047>>), F0("Hts"), F0("Ht"), F1("Cbt", 1), F1("Cht", 2), F1("Tbc", 0), F1("Tbc", 3), F1("Ctc", 0), F1("Ctc", 2), F0("Cr"), F1("Print", 97)}
   \cup {F1("Cha", k) : k \in {n \in {2, 8, 9, t.cols - 1, t.cols} : n >= 1}}
 TabsSizes == {<<w, 1>> : w \in {1, 7, 8, 9, 16, 17}}
 TabsResizes(t) == {<<w, 1>> : w \in {1, 7, 8, 9, 15, 16, 17, 24, 25, 32} \ {t.cols}}
